@@ -54,6 +54,12 @@ func serveRaw(h http.Handler, method, host, path, rawQuery string, hdr map[strin
 	}
 	hr, _ := http.NewRequest(method, "http://placeholder/", rd)
 	hr.URL = &url.URL{Scheme: "http", Host: host, Path: path, RawQuery: rawQuery}
+	// what net/http makes of the request line an SDK sends (everything but unreserved characters
+	// and '/' percent-encoded): URL.Path is the decoded path and URL.RawPath keeps the wire form
+	// whenever that is not Go's own encoding of the path ('+', ':', '@', '(', "'" ...)
+	if u, err := url.ParseRequestURI(sdkEscapePath(path)); err == nil && u.Path == path && path != "" {
+		hr.URL.RawPath = u.RawPath
+	}
 	hr.Host = host
 	if body != nil {
 		hr.ContentLength = int64(len(body))
@@ -75,6 +81,21 @@ func serveRaw(h http.Handler, method, host, path, rawQuery string, hdr map[strin
 	res := rec.Result()
 	b, _ := io.ReadAll(res.Body)
 	return res.StatusCode, b, res.Header, hr.URL.Path, panicked
+}
+
+// sdkEscapePath: the AWS SDKs' URI encoding of a path: unreserved characters and '/' stay
+func sdkEscapePath(p string) string {
+	var b strings.Builder
+	for i := 0; i < len(p); i++ {
+		ch := p[i]
+		switch {
+		case ch >= 'a' && ch <= 'z', ch >= 'A' && ch <= 'Z', ch >= '0' && ch <= '9', ch == '-', ch == '_', ch == '.', ch == '~', ch == '/':
+			b.WriteByte(ch)
+		default:
+			fmt.Fprintf(&b, "%%%02X", ch)
+		}
+	}
+	return b.String()
 }
 
 func canonResp(status int, body []byte, hdr http.Header) string {
@@ -102,8 +123,8 @@ func runC16(c *Ctx) {
 		{},
 	}
 	labels := []string{"mybucket", "abc", "b-2", "a1b"}
-	paths := []string{"", "/", "/key", "/dir/key", "/key/", "//key", "/a%2Fb", "/k with space", "/日本"}
-	c.R.Rule = "function level: the URL path the real middleware chain hands to the router (read back from the request after ServeHTTP) for every combination of 7 option sets × hosts {label.base for every configured base, label.otherbase, base itself, x.label.base, unrelated, with and without :port, empty} × 9 paths, compared with the Lean model (HostBucket.serverRewrite) and the specification (path-style equivalent); behaviour level: one memory backend shared by a path-style and a host-style server, every operation (PUT, GET, HEAD, DELETE, list V1/V2, versioning, multipart initiate/abort, multi-delete, copy) issued in one style and observed in the other, and reads issued in both styles compared response for response; outer-slash variants of the path; non-trivial = distinct (options, host, path)"
+	paths := []string{"", "/", "/key", "/dir/key", "/key/", "//key", "/a%2Fb", "/k with space", "/日本", "/a+b", "/dir/u@x:1"}
+	c.R.Rule = "function level: the URL path the real middleware chain hands to the router (read back from the request after ServeHTTP) for every combination of 7 option sets × hosts {label.base for every configured base, label.otherbase, base itself, x.label.base, unrelated, with and without :port, empty} × 11 paths (sent as an SDK encodes them, so that net/http retains URL.RawPath where the wire form is not its own encoding), compared with the Lean model (HostBucket.serverRewrite) and the specification (path-style equivalent); behaviour level: one memory backend shared by a path-style and a host-style server, every operation (PUT, GET, HEAD, DELETE, list V1/V2, versioning, multipart initiate/abort, multi-delete, copy) issued in one style and observed in the other, and reads issued in both styles compared response for response; outer-slash variants of the path; non-trivial = distinct (options, host, path)"
 	// (a) function level
 	for _, cfg := range cfgs {
 		g := gofakes3.New(s3mem.New(), cfg.opts()...)
@@ -204,7 +225,7 @@ func runC16(c *Ctx) {
 			if s != 200 || s2 != 200 {
 				c.mismatch(Mismatch{Kind: "spec", Backend: "mem", Case: []string{"PUT / host=" + host + " then HEAD /" + b}, Impl: fmt.Sprint(s, s2), Spec: "200 200", Finger: "c16:cross:createBucket"})
 			}
-			keys := []string{"/k1", "/dir/k2", "/k 3", "/ü", "/dir//k4", "/a/./b", "/a/../c"}
+			keys := []string{"/k1", "/dir/k2", "/k 3", "/ü", "/dir//k4", "/a/./b", "/a/../c", "/a+b.txt", "/dir/user@example.com", "/2024-01-01T10:00.jpg", "/it's (1)!*"}
 			for i, k := range keys {
 				body := []byte(fmt.Sprintf("content-%s-%d", b, i))
 				// write host-style, read path-style
